@@ -613,6 +613,15 @@ def _sparse(repo, col):
     col.check(same, "R-C20-roles", fi, "sparse_connect: pre and post cell draws are permuted together",
               "both indexed by the same argsort", "the sorting permutation is applied to one end only: pre and post cells of a connection are "
               "no longer the pair that was drawn", node=c)
+    # one pre cell and one post cell per connection: both ends are drawn the same number of times
+    def draw_size(t_):
+        d = T.find(t_, lambda x: x.op == "mcall" and x.name in ("choice", "randint", "integers") and "size" in x.kw)
+        return d.kw["size"] if d is not None else None
+    s_pre, s_post = draw_size(pre), draw_size(post)
+    if s_pre is not None and s_post is not None:
+        col.check(s_pre.key() == s_post.key(), "R-C20-length", fi, "sparse_connect: as many pre cells as post cells are drawn",
+                  "size=num_connections on both ends", f"the pre cells are drawn `{s_pre.short(50)}` times, the post cells `{s_post.short(50)}` "
+                  f"times: the two ends of the connections no longer pair up", node=c)
 
 
 def _stmt_of(fn, node):
